@@ -71,6 +71,8 @@ def gen_history(rng):
         xml += f'<w:abstractNum w:abstractNumId="{a}">' + ''.join(
             f'<w:lvl w:ilvl="{i}">' + (f'<w:start w:val="{st}"/>' if st is not None else '') + (f'<w:numFmt w:val="{fm}"/>' if fm else '') + '<w:lvlText w:val="%1."/></w:lvl>'
             for i, (st, fm) in enumerate(ls)) + '</w:abstractNum>'
+    malformed = rng.random() < 0.04
+    if malformed: xml += '<w:abstractNum w:abstractNumId="5"><w:lvl w:ilvl="0">' + rng.choice(['<w:start/>', '<w:numFmt/>']) + '</w:lvl></w:abstractNum>'
     xml += '<w:num w:numId="1"><w:abstractNumId w:val="0"/></w:num><w:num w:numId="2"><w:abstractNumId w:val="1"/></w:num>'
     k3 = rng.random()
     if k3 < 0.3: xml += '<w:num w:numId="3"/>'
@@ -91,7 +93,7 @@ def gen_history(rng):
     hdr = ''.join(item() for _ in range(rng.randint(0, 6)))
     parts = {'header1.xml': ('header', '<w:hdr NS>' + hdr + '</w:hdr>')} if hdr else {}
     data = docx(body, numbering=xml if has_num else None, parts=parts)
-    return data, {'absn': absn, 'nums': nums if has_num else {}, 'n': n}
+    return data, {'absn': absn, 'nums': nums if has_num else {}, 'n': n, 'malformed_definition': malformed and has_num}
 
 
 def expected_markers(pars, meta):
@@ -133,7 +135,10 @@ def one(ctx, data, meta):
     for attr, path in (('body', 'word/document.xml'), ('header', 'word/header1.xml')):
         if path not in parts: continue
         a, b = i.get(attr + '_pars'), m.get(attr + '_pars')
-        if 'ok' not in a: ctx.skipped_raises += 1; continue
+        if 'ok' not in a:
+            ctx.skipped_raises += 1
+            if 'ok' in (b or {}): ctx.diff(f'{attr}_pars: the implementation raises where the model returns', case, a, 'returns'); good = False
+            continue
         recs = flat(a['ok'], 4)
         obs = lambda rs: [{'first': (x['runs'] or [''])[0] if x['runs'] else '', 'lp': x['lp']} for x in rs]
         if 'ok' in b:
@@ -141,6 +146,7 @@ def one(ctx, data, meta):
             if d: ctx.diff(f'list markers / list_position of {attr}_pars', case, d[1], d[2], path=d[0]); good = False
         else: ctx.diff(f'{attr}_pars: model raises', case, 'returns', b); good = False
         sp = src.paragraphs(parts[path], path)
+        if meta.get('malformed_definition'): continue       # a level without w:val is not schema-valid: the statement does not say what the markers are (tie only)
         want = expected_markers(sp, meta)
         byelem = {tuple(x['elem']): x for x in recs if x.get('elem')}
         for q, (mk, lp) in zip(sp, want):
@@ -210,6 +216,7 @@ def replay(ctx, rep):
                     for l in a:
                         if src.ptag(l) != 'w:lvl': continue
                         st = src.child(l, 'w:start'); fm = src.child(l, 'w:numFmt')
+                        if (st is not None and src.wval(st) is None) or (fm is not None and src.wval(fm) is None): meta['malformed_definition'] = True; continue
                         ls.append((int(src.wval(st)) if st is not None else None, src.wval(fm) if fm is not None else None))
                     meta['absn'][int(src.wval(a, 'abstractNumId'))] = ls
                 elif src.ptag(a) == 'w:num':
